@@ -194,7 +194,7 @@ func sceneBindingMsg(op int, o BindOpts) {
 	chk("C15", vf.All(post.ServiceName == Svc, post.Provider.Equals(prov), post.Owner.Equals(owner) || !present && !owned), "binding-identity")
 	own, hasOwn := k.GetOwner(ctx, prov)
 	chk("C15", vf.And(hasOwn, own.Equals(post.Owner)), "provider-has-one-owner")
-	chk("C15 C17", vf.All(vf.Store(ctx).Has(types.GetOwnerServiceBindingKey(post.Owner, Svc, prov)), vf.Store(ctx).Has(types.GetOwnerProviderKey(post.Owner, prov))), "owner-indexes-present")
+	chk("C15 C17 C13", vf.All(vf.Store(ctx).Has(types.GetOwnerServiceBindingKey(post.Owner, Svc, prov)), vf.Store(ctx).Has(types.GetOwnerProviderKey(post.Owner, prov))), "owner-indexes-present")
 	lst := k.GetOwnerServiceBindings(ctx, post.Owner, Svc)
 	chk("C15 C17", len(lst) == 1, "binding-listed-for-its-owner")
 	stored := k.GetPricing(ctx, Svc, prov)
